@@ -84,7 +84,8 @@ func CaptureBlackhole(t *testing.T, spec *quic.QUICSpec, conf *quic.Config, dur 
 		w.Router.KeepData = true
 		w.Observe().InitialPNHint = pnHint(spec)
 		ct := &quic.Transport{Conn: w.ClientConn}
-		defer ct.Close()
+		// no deferred ct.Close(): a panic inside Dial happens with the transport's mutex held, and a deferred
+		// Close would then block for ever instead of letting the panic surface
 		ctx, cancel := context.WithTimeout(context.Background(), dur)
 		defer cancel()
 		if conf == nil {
@@ -97,6 +98,7 @@ func CaptureBlackhole(t *testing.T, spec *quic.QUICSpec, conf *quic.Config, dur 
 		}
 		f = collect(w, burstOnly)
 		f.DialErr = err
+		ct.Close()
 	}, nil)
 	return f
 }
